@@ -120,7 +120,7 @@ static void obj_event(const char* tag, int h, struct msa* m, int full)
         sb_key(&b,"names"); sb_str(&b,"[");
         for(int i = 0; i < m->numseq; i++){
                 if(i) sb_str(&b,",");
-                sb_chars(&b, m->sequences[i]->name, (int)strnlen(m->sequences[i]->name, MSA_NAME_LEN));
+                sb_chars(&b, m->sequences[i]->name, (int)strnlen(m->sequences[i]->name, 1 << 20));
         }
         sb_str(&b,"]");
         if(full){
